@@ -335,8 +335,10 @@ Fixpoint send_loop (fuel : nat) (start : Z) (s : list N) (rb : bool) (timeout : 
     end
   end.
 
+(* the whole payload is checked against the black-list before the first slice is sent *)
 Definition send (s : list N) (rb : bool) (timeout : option Z) (c : chan) : res unit * chan :=
-  send_loop (S (length s)) (now (io c)) s rb timeout c.
+  if any_in (blacklist c) s then (EIllegal, c)
+  else send_loop (S (length s)) (now (io c)) s rb timeout c.
 
 Definition sendline (s : list N) (rb : bool) (timeout : option Z) (c : chan) : res unit * chan :=
   send (s ++ [CR]) rb timeout c.
